@@ -18,6 +18,11 @@ def main():
     if prefix:
         patches = [f for f in patches if f.startswith(prefix)]
         results = json.load(open(os.path.join(d, 'RESULTS.json')))
+    if '--list' in args:                # --list FILE: only the patches named in FILE (benign/<name>.diff), merged into RESULTS.json
+        i = args.index('--list'); names = {os.path.basename(l.strip()) for l in open(args[i+1]) if l.strip()}; del args[i:i+2]
+        patches = [f for f in patches if f in names]
+        results = json.load(open(os.path.join(d, 'RESULTS.json')))
+        props = args or [c['property_id'] for c in man['checks']]
     bad = 0
     def one(p):
         return p, run(os.path.join(d, p), props)
